@@ -69,7 +69,7 @@ fn flatten(stored: &[Vec<History>], max_level: usize) -> Vec<History> {
 
 fn common_assumptions(report: &mut Report) {
     report.assumptions.extend([
-        "64-bit little-endian host (x86_64-unknown-linux-gnu), rustc 1.95; the 32-bit-only branches of the crate are compiled out of the native engine (C03, C01 thorough and C20 thorough add Miri-hosted runs for 32-bit and big-endian targets)".to_string(),
+        "64-bit little-endian host (x86_64-unknown-linux-gnu), rustc 1.95; the 32-bit-only branches of the crate are compiled out of the native engine (C01, C03 and the thorough tiers of C06, C14, C20 add Miri-hosted runs for 32-bit and big-endian targets)".to_string(),
         "the shim allocator is the allocator: fresh addresses, always-moving realloc, refusal = null with the old block intact".to_string(),
         "state de-duplication uses a 128-bit SipHash of the exact canonical state (addresses and slot names removed); a hash collision could merge two states".to_string(),
         "engine built in release mode with debug-assertions on (the crate's own debug_assert!s are extra oracles)".to_string(),
@@ -276,7 +276,7 @@ pub fn run_property(prop: &str, tier: &str, threads: usize, budget: &Budget, fin
             report.add_probe(stats.to_json("clone-sweep", 0, true));
         }
         "C09" => {
-            report.rule = "inline profile: every history of edits that keeps the text within the inline limit (K=2) - no allocator request, storage stays inline; every constructor transition of the wide graph; constructor sweep: every text over the four widths up to the stated length, every possible 16th byte (192 x 3 shapes + 128 ASCII), lengths 17..=80/100/1000/65536 through 10 constructors; every char; both bools; every digit count of every integer type".into();
+            report.rule = "inline profile: every history of edits that keeps the text within the inline limit (K=2) - no allocator request, storage stays inline; every constructor transition of the wide graph; constructor sweep: every text over the four widths up to the stated length, every possible 16th byte (192 x 3 shapes + 128 ASCII), lengths 17..=80/100/1000/65536 through 15 constructors; every char; both bools; every digit count of every integer type".into();
             let (dinl, dw) = if quick { (6, 4) } else { (dd(8), dd(5)) };
             bfs(&env, report, &inline, Roots::Empty, dinl, props, true);
             bfs(&env, report, &wide, Roots::Empty, dw, props, true);
